@@ -51,12 +51,15 @@ def transformed(rng, ds, kind):
             col = X[f]
             if not all(isinstance(v, str) or fitgen.cell(v) is None for v in col.tolist()):
                 continue
-            g = lambda v: v if fitgen.cell(v) is None else "k_" + v     # order-preserving bijection
+            # order-preserving bijection: a suffix starting with "!" (smaller than every character of a generated name)
+            # keeps the order of the names *and* their order relative to the library's own markers (__OTHER__, __NAN__,
+            # user-chosen ones), which a prefix would change (false alarm with VERIF_SEED=104, see DESIGN 15.6)
+            g = lambda v: v if fitgen.cell(v) is None else v + "!r"
             X[f] = col.map(g)
             if Xd is not None:
                 Xd[f] = Xd[f].map(g)
             if f in ds["values_orders"]:
-                vo[f] = ["k_" + v for v in ds["values_orders"][f]]
+                vo[f] = [v + "!r" for v in ds["values_orders"][f]]
         d["X"], d["X_dev"] = X, Xd
         d["values_orders"] = {**ds["values_orders"], **vo}
     return d, rowmap
